@@ -435,3 +435,941 @@ Proof.
     replace (k * a - k * y) with (k * (a - y)) by lra.
     rewrite Rabs_mult, (Rabs_pos_eq k) by lra. apply Rltb_scale; exact Hk.
 Qed.
+
+(* ================================================================== *)
+(* Mirror: x -> ts + te - x, trains reversed                           *)
+
+Definition mir (ts te : R) : R -> R := fun x => ts + te - x.
+Definition mirror_train (ts te : R) (s : list R) : list R := rev (map (mir ts te) s).
+Definition mirctx (ts te : R) (c : @ctx R) : @ctx R :=
+  mkCtx (option_map (mir ts te) (c_next c)) (mir ts te (c_cur c)) (option_map (mir ts te) (c_prev c)).
+
+Lemma mir_invol ts te x : mir ts te (mir ts te x) = x.
+Proof. unfold mir; lra. Qed.
+Lemma mir_ts ts te : mir ts te ts = te.
+Proof. unfold mir; lra. Qed.
+Lemma mir_te ts te : mir ts te te = ts.
+Proof. unfold mir; lra. Qed.
+Lemma mir_inj ts te x y : mir ts te x = mir ts te y -> x = y.
+Proof. unfold mir; intros; lra. Qed.
+Lemma Rltb_mir ts te a b : Rltb (mir ts te a) (mir ts te b) = Rltb b a.
+Proof. unfold mir. destruct (Rltb_spec (ts + te - a) (ts + te - b)), (Rltb_spec b a); try reflexivity; lra. Qed.
+Lemma Reqb_mir ts te a b : Reqb (mir ts te a) (mir ts te b) = Reqb a b.
+Proof. unfold mir. destruct (Reqb_spec (ts + te - a) (ts + te - b)), (Reqb_spec a b); try reflexivity; exfalso; lra. Qed.
+
+(* ------------------------------------------------------------------ *)
+(* generic list facts                                                  *)
+
+Lemma existsb_rev_map {A B} (p : B -> bool) (q : A -> bool) (g : A -> B) l :
+  (forall a, p (g a) = q a) -> existsb p (rev (map g l)) = existsb q l.
+Proof.
+  intros E. induction l as [|a l IH]; [reflexivity|].
+  cbn [map rev existsb]. rewrite existsb_app, IH. cbn [existsb].
+  rewrite E, orb_false_r. apply orb_comm.
+Qed.
+
+Lemma find_app' {A} (p : A -> bool) l1 l2 :
+  find p (l1 ++ l2) = match find p l1 with Some x => Some x | None => find p l2 end.
+Proof.
+  induction l1 as [|a l1 IH]; [reflexivity|].
+  cbn [app find]. destruct (p a); [reflexivity | exact IH].
+Qed.
+
+Lemma find_rev_unique {A} (p : A -> bool) l :
+  (forall a b, In a l -> In b l -> p a = true -> p b = true -> a = b) ->
+  find p (rev l) = find p l.
+Proof.
+  induction l as [|a l IH]; intros U; [reflexivity|].
+  cbn [rev]. rewrite find_app', IH.
+  2:{ intros x y Hx Hy. apply U; right; assumption. }
+  cbn [find]. destruct (p a) eqn:Pa.
+  - destruct (find p l) as [b|] eqn:Fb; [|reflexivity].
+    apply find_some in Fb as [Hb Pb]. f_equal. symmetry.
+    apply U; [left; reflexivity | right; exact Hb | exact Pa | exact Pb].
+  - destruct (find p l); reflexivity.
+Qed.
+
+Lemma find_map' {A B} (p : B -> bool) (g : A -> B) l :
+  find p (map g l) = option_map g (find (fun x => p (g x)) l).
+Proof.
+  induction l as [|a l IH]; [reflexivity|].
+  cbn [map find]. destruct (p (g a)); [reflexivity | exact IH].
+Qed.
+
+Lemma find_ext' {A} (p q : A -> bool) l : (forall a, p a = q a) -> find p l = find q l.
+Proof.
+  intros E. induction l as [|a l IH]; [reflexivity|].
+  cbn [find]. rewrite E, IH. reflexivity.
+Qed.
+
+Lemma find_rev_map {A B} (p : B -> bool) (q : A -> bool) (g : A -> B) l :
+  (forall a, p (g a) = q a) ->
+  (forall a b, In a l -> In b l -> q a = true -> q b = true -> a = b) ->
+  find p (rev (map g l)) = option_map g (find q l).
+Proof.
+  intros E U. rewrite <- map_rev, find_map', (find_ext' _ q _ E), find_rev_unique.
+  - reflexivity.
+  - exact U.
+Qed.
+
+Lemma NoDup_map_inj {A B} (f : A -> B) l : NoDup (map f l) ->
+  forall a b, In a l -> In b l -> f a = f b -> a = b.
+Proof.
+  induction l as [|x l IH]; intros ND a b Ha Hb E; [destruct Ha|].
+  cbn [map] in ND. inversion ND as [|? ? Hn ND']; subst.
+  destruct Ha as [->|Ha], Hb as [->|Hb].
+  - reflexivity.
+  - exfalso. apply Hn. rewrite E. apply in_map; exact Hb.
+  - exfalso. apply Hn. rewrite <- E. apply in_map; exact Ha.
+  - apply IH; assumption.
+Qed.
+
+Lemma hd_rev {A} (l : list A) d : hd d (rev l) = last l d.
+Proof.
+  induction l as [|a l IH]; [reflexivity|].
+  cbn [rev]. destruct l as [|b l]; [reflexivity|].
+  change (last (a :: b :: l) d) with (last (b :: l) d). rewrite <- IH.
+  cbn [rev]. destruct (rev l ++ [b]) eqn:E; [|reflexivity].
+  exfalso. destruct (rev l); discriminate.
+Qed.
+Lemma last_rev {A} (l : list A) d : last (rev l) d = hd d l.
+Proof. destruct l as [|a l]; [reflexivity|]. cbn [rev hd]. apply last_last. Qed.
+Lemma hd_map {A B} (g : A -> B) l d : hd (g d) (map g l) = g (hd d l).
+Proof. destruct l; reflexivity. Qed.
+
+(* ------------------------------------------------------------------ *)
+(* sortedness, sort_unique (self-contained copies)                     *)
+
+Lemma tr_ssorted_NoDup l : ssorted l -> NoDup l.
+Proof.
+  induction l as [|a l IH]; intros H; [constructor|].
+  apply ssorted_cons_inv in H as [H1 H2]. constructor; [|auto].
+  intros Hin. rewrite Forall_forall in H2. specialize (H2 _ Hin). lra.
+Qed.
+
+Lemma tr_ssorted_ext l : forall l', ssorted l -> ssorted l' ->
+  (forall x, In x l <-> In x l') -> l = l'.
+Proof.
+  induction l as [|a l IH]; intros [|b l'] S1 S2 E.
+  - reflexivity.
+  - exfalso. apply (E b). left; reflexivity.
+  - exfalso. apply (E a). left; reflexivity.
+  - apply ssorted_cons_inv in S1 as [S1 F1]. apply ssorted_cons_inv in S2 as [S2 F2].
+    rewrite Forall_forall in F1, F2.
+    assert (Hab : a = b).
+    { destruct (proj1 (E a) (or_introl eq_refl)) as [Hb|Hb]; [auto|].
+      destruct (proj2 (E b) (or_introl eq_refl)) as [Ha|Ha]; [auto|].
+      specialize (F1 _ Ha). specialize (F2 _ Hb). lra. }
+    subst b. f_equal. apply IH; auto.
+    intros x; split; intros Hx.
+    + destruct (proj1 (E x) (or_intror Hx)) as [Hb|Hb]; [|auto].
+      subst x. specialize (F1 _ Hx). lra.
+    + destruct (proj2 (E x) (or_intror Hx)) as [Hb|Hb]; [|auto].
+      subst x. specialize (F2 _ Hx). lra.
+Qed.
+
+Lemma tr_insert_u_In x l y : In y (insert_u ROps x l) <-> y = x \/ In y l.
+Proof.
+  induction l as [|a l IH]; cbn [insert_u nltb neqb ROps].
+  - cbn. intuition.
+  - destruct (Rltb_spec x a) as [H|H].
+    + cbn [In]. intuition.
+    + destruct (Reqb_spec x a) as [E|E].
+      * cbn [In]. subst. intuition.
+      * cbn [In]. rewrite IH. intuition.
+Qed.
+
+Lemma tr_insert_u_sorted x l : ssorted l -> ssorted (insert_u ROps x l).
+Proof.
+  induction l as [|a l IH]; intros S; cbn [insert_u nltb neqb ROps].
+  - apply ssorted_cons; [apply ssorted_nil | constructor].
+  - destruct (Rltb_spec x a) as [H|H].
+    + apply ssorted_cons; [exact S|].
+      apply ssorted_cons_inv in S as [S F]. constructor; [exact H|].
+      rewrite Forall_forall in *. intros y Hy. specialize (F _ Hy). lra.
+    + destruct (Reqb_spec x a) as [E|E]; [exact S|].
+      apply ssorted_cons_inv in S as [S F]. apply ssorted_cons; [auto|].
+      rewrite Forall_forall in *. intros y Hy. apply tr_insert_u_In in Hy as [->|Hy]; [lra|auto].
+Qed.
+
+Lemma tr_su_sorted l : ssorted (sort_unique ROps l).
+Proof.
+  induction l as [|a l IH]; cbn [sort_unique fold_right].
+  - apply ssorted_nil.
+  - apply tr_insert_u_sorted, IH.
+Qed.
+
+Lemma tr_su_In l x : In x (sort_unique ROps l) <-> In x l.
+Proof.
+  revert x. induction l as [|a l IH]; intros x; cbn [sort_unique fold_right In]; [tauto|].
+  rewrite tr_insert_u_In. unfold sort_unique in IH. rewrite IH. intuition.
+Qed.
+
+Lemma tr_ssorted_filter (p : R -> bool) l : ssorted l -> ssorted (filter p l).
+Proof.
+  induction l as [|a l IH]; intros H; cbn [filter]; [exact H|].
+  apply ssorted_cons_inv in H as [H1 H2].
+  destruct (p a); [|auto].
+  apply ssorted_cons; [auto|].
+  rewrite Forall_forall in *. intros y Hy. apply filter_In in Hy as [Hy _]. auto.
+Qed.
+
+Lemma ssorted_snoc l x : ssorted l -> Forall (fun y => y < x) l -> ssorted (l ++ [x]).
+Proof.
+  induction l as [|a l IH]; intros S F; cbn [app].
+  - apply ssorted_cons; [apply ssorted_nil | constructor].
+  - apply ssorted_cons_inv in S as [S Fa]. inversion F as [|? ? Hax F']; subst.
+    apply ssorted_cons; [apply IH; assumption|].
+    apply Forall_app; split; [exact Fa | constructor; [exact Hax | constructor]].
+Qed.
+
+Section Mirror.
+  Context (ts te : R).
+  Local Notation mr := (mir ts te).
+  Local Notation mtr := (mirror_train ts te).
+  Local Notation mcx := (mirctx ts te).
+
+  Lemma In_map_mir x l : In x (map mr l) <-> In (mr x) l.
+  Proof.
+    rewrite in_map_iff. split.
+    - intros [y [E Hy]]. subst x. rewrite mir_invol. exact Hy.
+    - intros H. exists (mr x). split; [apply mir_invol | exact H].
+  Qed.
+
+  Lemma In_mirror x s : In x (mtr s) <-> In (mr x) s.
+  Proof. unfold mirror_train. rewrite <- in_rev. apply In_map_mir. Qed.
+
+  Lemma ssorted_mirror s : ssorted s -> ssorted (mtr s).
+  Proof.
+    unfold mirror_train. induction s as [|a s IH]; intros S; [apply ssorted_nil|].
+    apply ssorted_cons_inv in S as [S F]. cbn [map rev].
+    apply ssorted_snoc; [apply IH; exact S|].
+    rewrite Forall_forall in *. intros y Hy. apply In_mirror in Hy.
+    specialize (F _ Hy). unfold mir in *. lra.
+  Qed.
+
+  Lemma su_mirror_gen l l' : (forall x, In x l' <-> In (mr x) l) ->
+    sort_unique ROps l' = mtr (sort_unique ROps l).
+  Proof.
+    intros E. apply tr_ssorted_ext.
+    - apply tr_su_sorted.
+    - apply ssorted_mirror, tr_su_sorted.
+    - intros x. rewrite tr_su_In, In_mirror, tr_su_In. apply E.
+  Qed.
+
+  (* ---------------------------------------------------------------- *)
+  (* 8. contexts                                                       *)
+
+  Definition hdo (r : list R) (n : option R) : option R :=
+    match r with [] => n | y :: _ => Some y end.
+  Fixpoint ctxs3 (p : option R) (s : list R) (n : option R) : list (@ctx R) :=
+    match s with
+    | [] => []
+    | x :: r => mkCtx p x (hdo r n) :: ctxs3 (Some x) r n
+    end.
+
+  Lemma contexts_from_ctxs3 s : forall p, contexts_from p s = ctxs3 p s None.
+  Proof.
+    induction s as [|x r IH]; intros p; [reflexivity|].
+    cbn [contexts_from ctxs3]. rewrite IH. reflexivity.
+  Qed.
+
+  Lemma hdo_app l x n : hdo (l ++ [x]) n = hdo l (Some x).
+  Proof. destruct l; reflexivity. Qed.
+  Lemma hdo_map (f : R -> R) r n : hdo (map f r) (option_map f n) = option_map f (hdo r n).
+  Proof. destruct r; reflexivity. Qed.
+
+  Lemma ctxs3_snoc l : forall p x n,
+    ctxs3 p (l ++ [x]) n = ctxs3 p l (Some x) ++ [mkCtx (hdo (rev l) p) x n].
+  Proof.
+    induction l as [|a l IH]; intros p x n; [reflexivity|].
+    cbn [app ctxs3 rev]. rewrite IH, !hdo_app. reflexivity.
+  Qed.
+
+  Lemma ctxs3_mirror s : forall p n,
+    ctxs3 (option_map mr n) (mtr s) (option_map mr p) = rev (map mcx (ctxs3 p s n)).
+  Proof.
+    unfold mirror_train. induction s as [|x r IH]; intros p n; [reflexivity|].
+    cbn [map rev ctxs3]. rewrite ctxs3_snoc.
+    change (Some (mr x)) with (option_map mr (Some x)). rewrite IH.
+    f_equal. f_equal. unfold mirctx. cbn [c_prev c_cur c_next].
+    rewrite rev_involutive, hdo_map. reflexivity.
+  Qed.
+
+  Theorem contexts_mirror : forall s,
+    contexts (mirror_train ts te s)
+    = rev (map (fun c => mkCtx (option_map (mir ts te) (c_next c)) (mir ts te (c_cur c))
+                               (option_map (mir ts te) (c_prev c)))
+               (contexts s)).
+  Proof.
+    intros s. unfold contexts. rewrite !contexts_from_ctxs3.
+    apply (ctxs3_mirror s None None).
+  Qed.
+
+  Lemma contexts_mirror' s : contexts (mtr s) = rev (map mcx (contexts s)).
+  Proof. apply contexts_mirror. Qed.
+
+  (* ---------------------------------------------------------------- *)
+  (* 9./10. tau_spec and coinc                                         *)
+
+  Lemma gapP_mirctx lim c : gapP ROps lim (Some (mcx c)) = gapF ROps lim (Some c).
+  Proof.
+    destruct c as [p x [n|]]; unfold mirctx;
+      cbn [option_map gapP gapF c_prev c_cur c_next nsub ROps]; unfold mir; try reflexivity; lra.
+  Qed.
+  Lemma gapF_mirctx lim c : gapF ROps lim (Some (mcx c)) = gapP ROps lim (Some c).
+  Proof.
+    destruct c as [[p|] x n]; unfold mirctx;
+      cbn [option_map gapP gapF c_prev c_cur c_next nsub ROps]; unfold mir; try reflexivity; lra.
+  Qed.
+
+  Lemma tau_el_mirror lim m a b : tau_el lim m (mcx a) (mcx b) = tau_el lim m b a.
+  Proof.
+    unfold tau_el. rewrite !gapP_mirctx, !gapF_mirctx. f_equal. apply Rmin_comm.
+  Qed.
+
+  (* the condition c_cur c1 <> c_cur c2 is needed: see the report *)
+  Theorem tau_spec_mirror : forall lim m c1 c2, c_cur c1 <> c_cur c2 ->
+    tau_spec ROps lim m (mirctx ts te c1) (mirctx ts te c2) = tau_spec ROps lim m c1 c2.
+  Proof.
+    intros lim m c1 c2 Hne. rewrite !tau_spec_R, !tau_el_mirror.
+    unfold mirctx at 1 2. cbn [c_cur]. rewrite Rltb_mir.
+    destruct (Rltb_spec (c_cur c1) (c_cur c2)) as [H|H];
+    destruct (Rltb_spec (c_cur c2) (c_cur c1)) as [H'|H']; try reflexivity; exfalso; lra.
+  Qed.
+
+  Theorem coinc_mirror : forall lim m c1 c2,
+    coinc ROps lim m (mirctx ts te c1) (mirctx ts te c2) = coinc ROps lim m c1 c2.
+  Proof.
+    intros lim m c1 c2. unfold coinc. rewrite !R_nabs. cbn [neqb nltb nsub ROps].
+    replace (Reqb (c_cur (mcx c1)) (c_cur (mcx c2))) with (Reqb (c_cur c1) (c_cur c2))
+      by (symmetry; apply Reqb_mir).
+    destruct (Reqb_spec (c_cur c1) (c_cur c2)) as [E|E]; [reflexivity|].
+    rewrite (tau_spec_mirror lim m c1 c2 E). cbn [negb andb]. f_equal.
+    unfold mirctx, mir; cbn [c_cur].
+    replace (ts + te - c_cur c1 - (ts + te - c_cur c2)) with (- (c_cur c1 - c_cur c2)) by lra.
+    apply Rabs_Ropp.
+  Qed.
+
+  (* ---------------------------------------------------------------- *)
+  (* 11. single_spec                                                   *)
+
+  Lemma has_partner_mirror lim m c k :
+    has_partner ROps lim m (mcx c) (rev (map mcx k)) = has_partner ROps lim m c k.
+  Proof. unfold has_partner. apply existsb_rev_map. intros d. apply coinc_mirror. Qed.
+
+  Lemma is_shared_mirror c k :
+    is_shared ROps (mcx c) (rev (map mcx k)) = is_shared ROps c k.
+  Proof.
+    unfold is_shared. apply existsb_rev_map. intros d. cbn [neqb ROps].
+    unfold mirctx; cbn [c_cur]. apply Reqb_mir.
+  Qed.
+
+  (* holds for arbitrary lists: existsb does not depend on the order *)
+  Theorem single_spec_mirror : forall s1 s2 mt m,
+    single_spec ROps (mirror_train ts te s1) (mirror_train ts te s2) ts te mt m
+    = rev (single_spec ROps s1 s2 ts te mt m).
+  Proof.
+    intros s1 s2 mt m. unfold single_spec. rewrite !contexts_mirror'.
+    rewrite map_rev. f_equal. rewrite map_map.
+    apply map_ext. intros c. rewrite has_partner_mirror, is_shared_mirror. reflexivity.
+  Qed.
+
+End Mirror.
+
+(* ------------------------------------------------------------------ *)
+(* 12./13. profiles as event lists                                     *)
+
+Lemma last_indep {A} (l : list A) d d' : l <> [] -> last l d = last l d'.
+Proof.
+  induction l as [|a l IH]; intros NE; [congruence|].
+  destruct l as [|b l]; [reflexivity|]. apply IH. discriminate.
+Qed.
+
+Lemma map_cur_ctxs3 s : forall p n, map (@c_cur R) (ctxs3 p s n) = s.
+Proof.
+  induction s as [|x r IH]; intros p n; [reflexivity|].
+  cbn [ctxs3 map c_cur]. rewrite IH. reflexivity.
+Qed.
+Lemma map_cur_contexts s : map (@c_cur R) (contexts s) = s.
+Proof. unfold contexts. rewrite contexts_from_ctxs3. apply map_cur_ctxs3. Qed.
+
+Lemma contexts_cur_inj s : ssorted s -> forall a b,
+  In a (contexts s) -> In b (contexts s) -> c_cur a = c_cur b -> a = b.
+Proof.
+  intros S. apply NoDup_map_inj. rewrite map_cur_contexts. apply tr_ssorted_NoDup, S.
+Qed.
+
+(* a context of a train: the train splits around the spike *)
+Lemma ctxs3_In s : forall p n d, In d (ctxs3 p s n) ->
+  exists l1 l2, s = l1 ++ c_cur d :: l2 /\ c_prev d = hdo (rev l1) p /\ c_next d = hdo l2 n.
+Proof.
+  induction s as [|x r IH]; intros p n d Hd; [destruct Hd|].
+  cbn [ctxs3] in Hd. destruct Hd as [<-|Hd].
+  - exists [], r. cbn. auto.
+  - apply IH in Hd as (l1 & l2 & E & HP & HN).
+    exists (x :: l1), l2. repeat split.
+    + cbn [app]. rewrite E at 1. reflexivity.
+    + cbn [rev]. rewrite hdo_app. exact HP.
+    + exact HN.
+Qed.
+
+Lemma contexts_In s d : In d (contexts s) ->
+  exists l1 l2, s = l1 ++ c_cur d :: l2 /\ c_prev d = hdo (rev l1) None /\ c_next d = hdo l2 None.
+Proof. unfold contexts. rewrite contexts_from_ctxs3. apply ctxs3_In. Qed.
+
+(* the next spike of d is at most any later spike of the train *)
+Lemma next_bound s d y : ssorted s -> In d (contexts s) -> In y s -> c_cur d < y ->
+  exists n, c_next d = Some n /\ n <= y.
+Proof.
+  intros S Hd Hy Hlt. apply contexts_In in Hd as (l1 & l2 & E & _ & HN).
+  rewrite E in S, Hy. apply ssorted_app_inv in S as (S1 & S2 & H12).
+  apply in_app_or in Hy as [Hy|Hy].
+  - specialize (H12 y (c_cur d) Hy (or_introl eq_refl)). lra.
+  - destruct Hy as [Hy|Hy]; [lra|].
+    destruct l2 as [|n l2]; [destruct Hy|]. exists n. split; [exact HN|].
+    apply ssorted_cons_inv in S2 as [S2 _]. apply ssorted_cons_inv in S2 as [_ F].
+    destruct Hy as [->|Hy]; [lra|]. rewrite Forall_forall in F. specialize (F _ Hy). lra.
+Qed.
+
+Lemma prev_bound s d y : ssorted s -> In d (contexts s) -> In y s -> y < c_cur d ->
+  exists p, c_prev d = Some p /\ y <= p.
+Proof.
+  intros S Hd Hy Hlt. apply contexts_In in Hd as (l1 & l2 & E & HP & _).
+  rewrite E in S, Hy. apply ssorted_app_inv in S as (S1 & S2 & H12).
+  apply in_app_or in Hy as [Hy|Hy].
+  - destruct (rev l1) as [|q t] eqn:ER.
+    + apply (f_equal (@rev R)) in ER. rewrite rev_involutive in ER. subst l1. destruct Hy.
+    + exists q. split; [exact HP|].
+      apply (f_equal (@rev R)) in ER. rewrite rev_involutive in ER. cbn [rev] in ER. subst l1.
+      apply ssorted_app_inv in S1 as (_ & _ & H').
+      apply in_app_or in Hy as [Hy|[->|[]]]; [|lra].
+      specialize (H' y q Hy (or_introl eq_refl)). lra.
+  - apply ssorted_cons_inv in S2 as [_ F]. destruct Hy as [Hy|Hy]; [lra|].
+    rewrite Forall_forall in F. specialize (F _ Hy). lra.
+Qed.
+
+(* a coincidence window never exceeds half of the gap on the partner's far side *)
+Lemma coinc_half lim m c d : coinc ROps lim m c d = true ->
+  (c_cur d < c_cur c -> forall n, c_next d = Some n -> c_cur c - c_cur d < (n - c_cur d) / 2) /\
+  (c_cur c < c_cur d -> forall p, c_prev d = Some p -> c_cur d - c_cur c < (c_cur d - p) / 2).
+Proof.
+  intros Hc. apply coinc_true in Hc as [Hne Hc]. rewrite tau_spec_R in Hc. split.
+  - intros Hlt n Hn. destruct (Rltb_spec (c_cur d) (c_cur c)) as [H|H]; [|lra].
+    unfold tau_el in Hc.
+    pose proof (interp_le_b (gapP ROps lim (Some d) / 2) (gapF ROps lim (Some d) / 2) (m / 4)) as B.
+    set (I1 := interp ROps (gapP ROps lim (Some d) / 2) (gapF ROps lim (Some d) / 2) (m / 4)) in *.
+    set (I2 := interp ROps (gapF ROps lim (Some c) / 2) (gapP ROps lim (Some c) / 2) (m / 4)) in *.
+    pose proof (Rmin_l (Rmin I1 I2) (lim / 2)) as M0. pose proof (Rmin_l I1 I2) as M1.
+    destruct d as [pd xd nd]. cbn [c_next c_cur] in *. subst nd.
+    cbn [gapF nsub ROps] in B. rewrite Rabs_right in Hc by lra. lra.
+  - intros Hlt p Hp. destruct (Rltb_spec (c_cur d) (c_cur c)) as [H|H]; [lra|].
+    unfold tau_el in Hc.
+    pose proof (interp_le_b (gapF ROps lim (Some d) / 2) (gapP ROps lim (Some d) / 2) (m / 4)) as B.
+    set (I1 := interp ROps (gapP ROps lim (Some c) / 2) (gapF ROps lim (Some c) / 2) (m / 4)) in *.
+    set (I2 := interp ROps (gapF ROps lim (Some d) / 2) (gapP ROps lim (Some d) / 2) (m / 4)) in *.
+    pose proof (Rmin_l (Rmin I1 I2) (lim / 2)) as M0. pose proof (Rmin_r I1 I2) as M1.
+    destruct d as [pd xd nd]. cbn [c_prev c_cur] in *. subst pd.
+    cbn [gapP nsub ROps] in B. rewrite Rabs_left in Hc by lra. lra.
+Qed.
+
+(* in a sorted train a spike has at most one coincidence partner *)
+Lemma partner_unique_lt lim m c s d d' : ssorted s ->
+  In d (contexts s) -> In d' (contexts s) ->
+  coinc ROps lim m c d = true -> coinc ROps lim m c d' = true ->
+  c_cur d < c_cur d' -> False.
+Proof.
+  intros S Hd Hd' C C' Hlt.
+  assert (Iy : In (c_cur d) s) by (rewrite <- (map_cur_contexts s); apply in_map; exact Hd).
+  assert (Iy' : In (c_cur d') s) by (rewrite <- (map_cur_contexts s); apply in_map; exact Hd').
+  destruct (next_bound s d (c_cur d') S Hd Iy' Hlt) as (n & Hn & Ln).
+  destruct (prev_bound s d' (c_cur d) S Hd' Iy Hlt) as (p & Hp & Lp).
+  pose proof (proj1 (coinc_true _ _ _ _) C) as [Ne _].
+  pose proof (proj1 (coinc_true _ _ _ _) C') as [Ne' _].
+  destruct (coinc_half lim m c d C) as [A1 A2].
+  destruct (coinc_half lim m c d' C') as [B1 B2].
+  destruct (Rlt_le_dec (c_cur c) (c_cur d)) as [H1|H1].
+  - assert (H2 : c_cur c < c_cur d') by lra. specialize (B2 H2 p Hp). lra.
+  - assert (H1' : c_cur d < c_cur c) by lra. specialize (A1 H1' n Hn).
+    destruct (Rlt_le_dec (c_cur c) (c_cur d')) as [H2|H2].
+    + specialize (B2 H2 p Hp). lra.
+    + lra.
+Qed.
+
+Lemma partner_unique lim m c s d d' : ssorted s ->
+  In d (contexts s) -> In d' (contexts s) ->
+  coinc ROps lim m c d = true -> coinc ROps lim m c d' = true -> d = d'.
+Proof.
+  intros S Hd Hd' C C'. apply (contexts_cur_inj s S); try assumption.
+  destruct (Rtotal_order (c_cur d) (c_cur d')) as [H|[H|H]]; [|exact H|].
+  - exfalso. exact (partner_unique_lt lim m c s d d' S Hd Hd' C C' H).
+  - exfalso. exact (partner_unique_lt lim m c s d' d S Hd' Hd C' C H).
+Qed.
+
+Lemma interior_framed ts te (E : list (R * R * R)) : removelast (tl (framed ROps ts te E)) = E.
+Proof.
+  destruct E as [|e0 r]; [reflexivity|].
+  unfold framed. cbn [tl]. apply removelast_last.
+Qed.
+
+Lemma framed_nonempty ts te (E : list (R * R * R)) d : E <> [] ->
+  framed ROps ts te E
+  = (ts, e_y (hd d E), e_mp (hd d E)) :: E ++ [(te, e_y (last E d), e_mp (last E d))].
+Proof.
+  destruct E as [|e0 r]; [congruence|]. intros NE. unfold framed. cbn [hd].
+  rewrite (last_indep (e0 :: r) e0 d NE). reflexivity.
+Qed.
+
+Lemma su_nonempty l : l <> [] -> sort_unique ROps l <> [].
+Proof.
+  destruct l as [|a l]; [congruence|]. intros _ H.
+  assert (In a (sort_unique ROps (a :: l))) as Ha by (apply tr_su_In; left; reflexivity).
+  rewrite H in Ha. destruct Ha.
+Qed.
+
+Section Mirror2.
+  Context (ts te : R).
+  Local Notation mr := (mir ts te).
+  Local Notation mtr := (mirror_train ts te).
+  Local Notation mcx := (mirctx ts te).
+
+  (* transform of a profile entry: time mirrored, value through h *)
+  Definition gT (h : R -> R) (e : R * R * R) : R * R * R := (mr (e_t e), h (e_y e), e_mp e).
+
+  Lemma map_mirror_train {B} (F : R -> B) l : map F (mtr l) = rev (map (fun t => F (mr t)) l).
+  Proof. unfold mirror_train. rewrite map_rev, map_map. reflexivity. Qed.
+
+  Lemma find_cur_mirror s t : ssorted s ->
+    find (fun c => neqb ROps (c_cur c) (mr t)) (contexts (mtr s))
+    = option_map mcx (find (fun c => neqb ROps (c_cur c) t) (contexts s)).
+  Proof.
+    intros S. rewrite contexts_mirror'. apply find_rev_map.
+    - intros a. cbn [neqb ROps]. unfold mirctx; cbn [c_cur]. apply Reqb_mir.
+    - intros a b Ha Hb Ea Eb. cbn [neqb ROps] in Ea, Eb.
+      apply Reqb_true in Ea, Eb. apply (contexts_cur_inj s S); try assumption. congruence.
+  Qed.
+
+  Lemma event_entries_mirror (h : R -> R) v1 v2 v1' v2' vb vb' s1 s2 :
+    ssorted s1 -> ssorted s2 -> h 0 = 0 -> vb' = h vb ->
+    (forall c, v1' (mcx c) (contexts (mtr s2)) = h (v1 c (contexts s2))) ->
+    (forall c, v2' (mcx c) (contexts (mtr s1)) = h (v2 c (contexts s1))) ->
+    event_entries ROps v1' v2' vb' (mtr s1) (mtr s2)
+    = rev (map (gT h) (event_entries ROps v1 v2 vb s1 s2)).
+  Proof.
+    intros S1 S2 H0 Hb Hv1 Hv2. unfold event_entries. cbv zeta.
+    rewrite (su_mirror_gen ts te (s1 ++ s2) (mtr s1 ++ mtr s2)).
+    2:{ intros x. rewrite !in_app_iff, !In_mirror. tauto. }
+    rewrite map_mirror_train. f_equal. rewrite map_map. apply map_ext. intros t.
+    rewrite !find_cur_mirror by assumption.
+    destruct (find (fun c => neqb ROps (c_cur c) t) (contexts s1)) as [a|];
+    destruct (find (fun c => neqb ROps (c_cur c) t) (contexts s2)) as [b|];
+      cbn [option_map]; unfold gT, e_t, e_y, e_mp; cbn [fst snd n0 ROps].
+    - rewrite Hb. reflexivity.
+    - rewrite Hv1. reflexivity.
+    - rewrite Hv2. reflexivity.
+    - rewrite H0. reflexivity.
+  Qed.
+
+  Lemma framed_mirror_ne (h : R -> R) E : E <> [] ->
+    framed ROps ts te (rev (map (gT h) E)) = rev (map (gT h) (framed ROps ts te E)).
+  Proof.
+    intros NE.
+    assert (NE' : rev (map (gT h) E) <> []).
+    { intros H. apply NE. apply (f_equal (@rev _)) in H. rewrite rev_involutive in H.
+      cbn [rev] in H. destruct E; [reflexivity | discriminate]. }
+    assert (exists d : R * R * R, True) as [d _] by (destruct E as [|e0 r]; [congruence | exists e0; exact I]).
+    rewrite (framed_nonempty ts te _ (gT h d) NE'), (framed_nonempty ts te E d NE).
+    rewrite hd_rev, last_rev, hd_map, last_map'.
+    cbn [map rev]. rewrite map_app, rev_app_distr. cbn [map rev app].
+    f_equal; [|f_equal; f_equal];
+      unfold gT, e_t, e_y, e_mp; cbn [fst snd]; rewrite ?mir_te, ?mir_ts; reflexivity.
+  Qed.
+
+  Lemma framed_mirror (h : R -> R) E : E <> [] \/ h 1 = 1 ->
+    framed ROps ts te (rev (map (gT h) E)) = rev (map (gT h) (framed ROps ts te E)).
+  Proof.
+    intros [NE|H1]; [apply framed_mirror_ne; exact NE|].
+    destruct E as [|e0 r]; [|apply framed_mirror_ne; discriminate].
+    cbn [map rev framed app]. unfold gT, e_t, e_y, e_mp. cbn [fst snd n1 ROps].
+    rewrite H1, mir_te, mir_ts. reflexivity.
+  Qed.
+
+  (* 12 *)
+  Theorem sync_spec_mirror_sorted : forall s1 s2 mt m, ssorted s1 -> ssorted s2 ->
+    sync_spec ROps (mirror_train ts te s1) (mirror_train ts te s2) ts te mt m
+    = rev (map (fun e => (mir ts te (e_t e), e_y e, e_mp e)) (sync_spec ROps s1 s2 ts te mt m)).
+  Proof.
+    intros s1 s2 mt m S1 S2. unfold sync_spec. cbv zeta.
+    set (v := fun (c : @ctx R) (others : list (@ctx R)) =>
+                if has_partner ROps (lim_of ROps ts te mt) m c others then n1 ROps else n0 ROps).
+    pose proof (event_entries_mirror (fun x => x) v v v v (n2 ROps) (n2 ROps) s1 s2 S1 S2
+                  eq_refl eq_refl) as HE.
+    rewrite HE.
+    - apply (framed_mirror (fun x => x)). right. reflexivity.
+    - intros c. unfold v. rewrite contexts_mirror', has_partner_mirror. reflexivity.
+    - intros c. unfold v. rewrite contexts_mirror', has_partner_mirror. reflexivity.
+  Qed.
+
+  Theorem sync_spec_mirror : forall s1 s2 mt m, valid ts te s1 -> valid ts te s2 ->
+    sync_spec ROps (mirror_train ts te s1) (mirror_train ts te s2) ts te mt m
+    = rev (map (fun e => (mir ts te (e_t e), e_y e, e_mp e)) (sync_spec ROps s1 s2 ts te mt m)).
+  Proof.
+    intros s1 s2 mt m (_ & S1 & _) (_ & S2 & _). apply sync_spec_mirror_sorted; assumption.
+  Qed.
+
+  (* 13 *)
+  Lemma lead_sign_mirror lim m c s : ssorted s ->
+    lead_sign ROps lim m (mcx c) (contexts (mtr s)) = - lead_sign ROps lim m c (contexts s).
+  Proof.
+    intros S. unfold lead_sign. rewrite contexts_mirror'.
+    rewrite (find_rev_map (coinc ROps lim m (mcx c)) (coinc ROps lim m c) mcx).
+    - destruct (find (coinc ROps lim m c) (contexts s)) as [d|] eqn:Fd; cbn [option_map].
+      + apply find_some in Fd as [_ Cd]. apply coinc_true in Cd as [Ne _].
+        unfold mirctx at 1 2. cbn [c_cur nltb nsub n0 n1 ROps]. rewrite Rltb_mir.
+        destruct (Rltb_spec (c_cur d) (c_cur c)) as [H|H];
+        destruct (Rltb_spec (c_cur c) (c_cur d)) as [H'|H']; lra.
+      + cbn [n0 ROps]. lra.
+    - intros a. apply coinc_mirror.
+    - intros a b Ha Hb Ca Cb. exact (partner_unique lim m c s a b S Ha Hb Ca Cb).
+  Qed.
+
+  Lemma order_entries_mirror s1 s2 mt m : ssorted s1 -> ssorted s2 ->
+    let lim := lim_of ROps ts te mt in
+    event_entries ROps (fun c k2 => lead_sign ROps lim m c k2)
+                  (fun c k1 => nsub ROps (n0 ROps) (lead_sign ROps lim m c k1)) (n0 ROps)
+                  (mtr s1) (mtr s2)
+    = rev (map (gT Ropp)
+             (event_entries ROps (fun c k2 => lead_sign ROps lim m c k2)
+                  (fun c k1 => nsub ROps (n0 ROps) (lead_sign ROps lim m c k1)) (n0 ROps) s1 s2)).
+  Proof.
+    intros S1 S2 lim. apply event_entries_mirror; try assumption.
+    - lra.
+    - cbn [n0 ROps]. lra.
+    - intros c. apply lead_sign_mirror; exact S2.
+    - intros c. rewrite lead_sign_mirror by exact S1. cbn [nsub n0 ROps]. lra.
+  Qed.
+
+  (* interior entries: mirrored and negated *)
+  Theorem order_spec_mirror_sorted : forall s1 s2 mt m, ssorted s1 -> ssorted s2 ->
+    removelast (tl (order_spec ROps (mirror_train ts te s1) (mirror_train ts te s2) ts te mt m))
+    = rev (map (fun e => (mir ts te (e_t e), - e_y e, e_mp e))
+               (removelast (tl (order_spec ROps s1 s2 ts te mt m)))).
+  Proof.
+    intros s1 s2 mt m S1 S2. unfold order_spec. cbv zeta. rewrite !interior_framed.
+    apply (order_entries_mirror s1 s2 mt m S1 S2).
+  Qed.
+
+  Theorem order_spec_mirror : forall s1 s2 mt m, valid ts te s1 -> valid ts te s2 ->
+    removelast (tl (order_spec ROps (mirror_train ts te s1) (mirror_train ts te s2) ts te mt m))
+    = rev (map (fun e => (mir ts te (e_t e), - e_y e, e_mp e))
+               (removelast (tl (order_spec ROps s1 s2 ts te mt m)))).
+  Proof.
+    intros s1 s2 mt m (_ & S1 & _) (_ & S2 & _). apply order_spec_mirror_sorted; assumption.
+  Qed.
+
+  (* the whole profile, edges included, when there is at least one spike *)
+  Theorem order_spec_mirror_full : forall s1 s2 mt m, ssorted s1 -> ssorted s2 -> s1 ++ s2 <> [] ->
+    order_spec ROps (mirror_train ts te s1) (mirror_train ts te s2) ts te mt m
+    = rev (map (fun e => (mir ts te (e_t e), - e_y e, e_mp e)) (order_spec ROps s1 s2 ts te mt m)).
+  Proof.
+    intros s1 s2 mt m S1 S2 NE. unfold order_spec. cbv zeta.
+    rewrite (order_entries_mirror s1 s2 mt m S1 S2).
+    apply (framed_mirror Ropp). left.
+    unfold event_entries. cbv zeta. intros H. apply map_eq_nil in H.
+    exact (su_nonempty _ NE H).
+  Qed.
+
+  Lemma map_lead_mirror lim m s s' : ssorted s ->
+    map (fun c => lead_sign ROps lim m c (contexts (mtr s))) (contexts (mtr s'))
+    = rev (map Ropp (map (fun c => lead_sign ROps lim m c (contexts s)) (contexts s'))).
+  Proof.
+    intros S. rewrite (contexts_mirror' ts te s'). rewrite map_rev, !map_map. f_equal.
+    apply map_ext. intros c. apply lead_sign_mirror; exact S.
+  Qed.
+
+  Theorem dir_spec_mirror_sorted : forall s1 s2 mt m, ssorted s1 -> ssorted s2 ->
+    dir_spec ROps (mirror_train ts te s1) (mirror_train ts te s2) ts te mt m
+    = (rev (map Ropp (fst (dir_spec ROps s1 s2 ts te mt m))),
+       rev (map Ropp (snd (dir_spec ROps s1 s2 ts te mt m)))).
+  Proof.
+    intros s1 s2 mt m S1 S2. unfold dir_spec. cbv zeta. cbn [fst snd].
+    rewrite (map_lead_mirror _ m s2 s1 S2), (map_lead_mirror _ m s1 s2 S1). reflexivity.
+  Qed.
+
+  Theorem dir_spec_mirror : forall s1 s2 mt m, valid ts te s1 -> valid ts te s2 ->
+    dir_spec ROps (mirror_train ts te s1) (mirror_train ts te s2) ts te mt m
+    = (rev (map Ropp (fst (dir_spec ROps s1 s2 ts te mt m))),
+       rev (map Ropp (snd (dir_spec ROps s1 s2 ts te mt m)))).
+  Proof.
+    intros s1 s2 mt m (_ & S1 & _) (_ & S2 & _). apply dir_spec_mirror_sorted; assumption.
+  Qed.
+
+End Mirror2.
+
+(* ------------------------------------------------------------------ *)
+(* 14. ISI length at a time, ISI profile                               *)
+
+Lemma filter_all_true {A} (q : A -> bool) l : (forall x, In x l -> q x = true) -> filter q l = l.
+Proof.
+  induction l as [|a l IH]; intros H; [reflexivity|].
+  cbn [filter]. rewrite (H a (or_introl eq_refl)). f_equal. apply IH. intros x Hx. apply H; right; exact Hx.
+Qed.
+
+Lemma next_of_split t l1 l2 : (forall x, In x l1 -> x <= t) ->
+  next_of ROps t (l1 ++ l2) = next_of ROps t l2.
+Proof.
+  induction l1 as [|a l1 IH]; intros H; [reflexivity|].
+  cbn [app next_of nltb ROps]. pose proof (H a (or_introl eq_refl)) as Ha.
+  destruct (Rltb_spec t a) as [H'|H']; [lra|]. apply IH. intros x Hx. apply H; right; exact Hx.
+Qed.
+Lemma next_of_hd t l2 : Forall (fun y => t < y) l2 -> next_of ROps t l2 = hdo l2 None.
+Proof.
+  destruct l2 as [|y l2]; intros F; [reflexivity|]. inversion F; subst.
+  cbn [next_of nltb ROps hdo]. destruct (Rltb_spec t y); [reflexivity | lra].
+Qed.
+Lemma prev_of_split t l1 l2 : (forall x, In x l1 -> x <= t) -> forall acc,
+  prev_of ROps t (l1 ++ l2) acc = prev_of ROps t l2 (hdo (rev l1) acc).
+Proof.
+  induction l1 as [|a l1 IH]; intros H acc; [reflexivity|].
+  cbn [app prev_of rev]. pose proof (H a (or_introl eq_refl)) as Ha.
+  unfold nleb. cbn [nltb ROps]. destruct (Rltb_spec t a) as [H'|H']; [lra|]. cbn [negb].
+  rewrite IH by (intros x Hx; apply H; right; exact Hx). rewrite hdo_app. reflexivity.
+Qed.
+Lemma prev_of_stop t l2 acc : Forall (fun y => t < y) l2 -> prev_of ROps t l2 acc = acc.
+Proof.
+  destruct l2 as [|y l2]; intros F; [reflexivity|]. inversion F; subst.
+  cbn [prev_of]. unfold nleb. cbn [nltb ROps]. destruct (Rltb_spec t y); [reflexivity | lra].
+Qed.
+
+(* normal form of isi_len_at: [r1] the spikes before t (most recent first), [l2] those after *)
+Definition isi_nf (ts te : R) (r1 l2 : list R) : R :=
+  match r1, l2 with
+  | p :: _, f :: _ => f - p
+  | [], f :: l2' => match l2' with f2 :: _ => Rmax (f - ts) (f2 - f) | [] => f - ts end
+  | p :: r1', [] => match r1' with p0 :: _ => Rmax (te - p) (p - p0) | [] => te - p end
+  | [], [] => 0
+  end.
+
+Lemma isi_len_at_nf ts te t r1 l2 : ssorted (rev r1 ++ l2) ->
+  Forall (fun y => y < t) r1 -> Forall (fun y => t < y) l2 ->
+  isi_len_at ROps ts te (rev r1 ++ l2) t = isi_nf ts te r1 l2.
+Proof.
+  intros S F1 F2. unfold isi_len_at.
+  assert (L1 : forall x, In x (rev r1) -> x <= t).
+  { intros x Hx. apply in_rev in Hx. rewrite Forall_forall in F1. specialize (F1 _ Hx). lra. }
+  rewrite (prev_of_split t (rev r1) l2 L1), (next_of_split t (rev r1) l2 L1).
+  rewrite (prev_of_stop t l2 _ F2), (next_of_hd t l2 F2), rev_involutive.
+  destruct r1 as [|p r1'], l2 as [|f l2']; cbn [hdo isi_nf].
+  - reflexivity.
+  - cbn [rev app] in *. unfold after. cbn [next_of nltb ROps].
+    destruct (Rltb_spec f f) as [H|_]; [lra|].
+    apply ssorted_cons_inv in S as [_ Ff].
+    destruct l2' as [|f2 l2'']; cbn [next_of nltb nsub ROps]; [reflexivity|].
+    inversion Ff; subst. destruct (Rltb_spec f f2) as [_|H]; [|lra].
+    rewrite R_nmax. reflexivity.
+  - rewrite app_nil_r in *. cbn [rev] in *. unfold before.
+    apply ssorted_app_inv in S as (_ & _ & Hlt).
+    rewrite filter_app. cbn [filter nltb ROps].
+    destruct (Rltb_spec p p) as [H|_]; [lra|]. rewrite app_nil_r.
+    rewrite filter_all_true.
+    2:{ intros x Hx. apply Rltb_true. apply Hlt; [exact Hx | left; reflexivity]. }
+    rewrite <- (app_nil_r (rev r1')) at 1. rewrite prev_of_split.
+    2:{ intros x Hx. specialize (Hlt x p Hx (or_introl eq_refl)). lra. }
+    cbn [prev_of]. rewrite rev_involutive.
+    destruct r1' as [|p0 r1'']; cbn [hdo nsub ROps]; [reflexivity|].
+    rewrite R_nmax. reflexivity.
+  - reflexivity.
+Qed.
+
+Lemma split_at t u : ssorted u -> ~ In t u ->
+  exists l1 l2, u = l1 ++ l2 /\ Forall (fun y => y < t) l1 /\ Forall (fun y => t < y) l2.
+Proof.
+  induction u as [|a u IH]; intros S NI.
+  - exists [], []. repeat split; constructor.
+  - apply ssorted_cons_inv in S as [S F].
+    destruct (Rlt_le_dec a t) as [H|H].
+    + destruct (IH S) as (l1 & l2 & E & F1 & F2); [intros Hi; apply NI; right; exact Hi|].
+      exists (a :: l1), l2. repeat split; [cbn; rewrite E; reflexivity | constructor; assumption | exact F2].
+    + assert (t < a). { destruct H as [H|H]; [exact H|]. exfalso. apply NI. left. symmetry; exact H. }
+      exists [], (a :: u). repeat split; [constructor|].
+      constructor; [assumption|]. rewrite Forall_forall in *. intros y Hy. specialize (F _ Hy). lra.
+Qed.
+
+Lemma pieces_snoc (l : list R) (d x : R) : l <> [] -> pieces (l ++ [x]) = pieces l ++ [(last l d, x)].
+Proof.
+  induction l as [|a l IH]; intros NE; [congruence|].
+  destruct l as [|b l']; [reflexivity|].
+  change (pieces ((a :: b :: l') ++ [x])) with ((a, b) :: pieces ((b :: l') ++ [x])).
+  rewrite IH by discriminate. reflexivity.
+Qed.
+
+Lemma pieces_In (l : list R) a b : In (a, b) (pieces l) -> In a l /\ In b l.
+Proof.
+  induction l as [|a0 l IH]; [intros []|].
+  destruct l as [|b0 r]; [intros []|].
+  change (pieces (a0 :: b0 :: r)) with ((a0, b0) :: pieces (b0 :: r)).
+  intros [E|H].
+  - inversion E; subst. split; [left; reflexivity | right; left; reflexivity].
+  - apply IH in H as [H1 H2]. split; right; assumption.
+Qed.
+
+Lemma pieces_sorted_gap (l : list R) a b : ssorted l -> In (a, b) (pieces l) ->
+  a < b /\ forall x, In x l -> x <= a \/ b <= x.
+Proof.
+  induction l as [|a0 l IH]; [intros _ []|].
+  destruct l as [|b0 r]; [intros _ []|].
+  change (pieces (a0 :: b0 :: r)) with ((a0, b0) :: pieces (b0 :: r)).
+  intros S [E|H].
+  - inversion E; subst. apply ssorted_cons_inv in S as [S F]. inversion F; subst.
+    split; [assumption|]. intros x [->|Hx]; [left; lra|]. right.
+    destruct Hx as [->|Hx]; [lra|].
+    apply ssorted_cons_inv in S as [_ F']. rewrite Forall_forall in F'. specialize (F' _ Hx). lra.
+  - apply ssorted_cons_inv in S as [S F]. destruct (IH S H) as [Hab Hg].
+    split; [exact Hab|]. intros x [->|Hx]; [|apply Hg; exact Hx].
+    left. apply pieces_In in H as [Ha _]. rewrite Forall_forall in F. specialize (F _ Ha). lra.
+Qed.
+
+Section Mirror3.
+  Context (ts te : R).
+  Local Notation mr := (mir ts te).
+  Local Notation mtr := (mirror_train ts te).
+
+  Lemma isi_nf_mirror r1 l2 : isi_nf ts te (map mr l2) (map mr r1) = isi_nf ts te r1 l2.
+  Proof.
+    destruct r1 as [|p [|p0 r1]], l2 as [|f [|f2 l2]]; cbn [map isi_nf]; unfold mir;
+      try lra; f_equal; lra.
+  Qed.
+
+  (* exact side condition: t is not a spike of u (u strictly sorted) *)
+  Theorem isi_len_at_mirror_gen : forall u t, ssorted u -> ~ In t u ->
+    isi_len_at ROps ts te (mirror_train ts te u) (mir ts te t) = isi_len_at ROps ts te u t.
+  Proof.
+    intros u t S NI. destruct (split_at t u S NI) as (l1 & l2 & E & F1 & F2).
+    assert (Em : mtr u = rev (map mr l2) ++ map mr (rev l1)).
+    { unfold mirror_train. rewrite E, map_app, rev_app_distr, map_rev. reflexivity. }
+    assert (Eu : u = rev (rev l1) ++ l2) by (rewrite rev_involutive; exact E).
+    assert (Sm : ssorted (mtr u)) by (apply ssorted_mirror; exact S).
+    rewrite Em in Sm. rewrite Em. rewrite Eu. rewrite Eu in S.
+    rewrite (isi_len_at_nf ts te (mr t) (map mr l2) (map mr (rev l1)) Sm).
+    - rewrite (isi_len_at_nf ts te t (rev l1) l2 S).
+      + apply isi_nf_mirror.
+      + rewrite Forall_forall in *. intros y Hy. apply F1. apply in_rev; exact Hy.
+      + exact F2.
+    - rewrite Forall_forall in *. intros y Hy. apply In_map_mir in Hy.
+      specialize (F2 _ Hy). unfold mir in *. lra.
+    - rewrite Forall_forall in *. intros y Hy. apply In_map_mir in Hy. apply in_rev in Hy.
+      specialize (F1 _ Hy). unfold mir in *. lra.
+  Qed.
+
+  Theorem isi_len_at_mirror : forall u t, valid ts te u -> u <> [] -> ts < t < te -> ~ In t u ->
+    isi_len_at ROps ts te (mirror_train ts te u) (mir ts te t) = isi_len_at ROps ts te u t.
+  Proof. intros u t (_ & S & _) _ _ NI. apply isi_len_at_mirror_gen; assumption. Qed.
+
+  Lemma pieces_mirror bs :
+    pieces (mtr bs) = rev (map (fun p => (mr (snd p), mr (fst p))) (pieces bs)).
+  Proof.
+    unfold mirror_train. induction bs as [|a r IH]; [reflexivity|].
+    destruct r as [|b r']; [reflexivity|].
+    change (pieces (a :: b :: r')) with ((a, b) :: pieces (b :: r')).
+    cbn [map rev fst snd] in *. rewrite <- IH.
+    rewrite (pieces_snoc (rev (map mr r') ++ [mr b]) 0 (mr a)).
+    - rewrite last_last. reflexivity.
+    - destruct (rev (map mr r')); discriminate.
+  Qed.
+
+  Lemma mid_mirror a b : mid ROps (mr b, mr a) = mr (mid ROps (a, b)).
+  Proof. unfold mid. rewrite R_n2. cbn [fst snd nadd ndiv ROps]. unfold mir. lra. Qed.
+
+  Lemma breaks_mirror s1 s2 :
+    breaks ROps ts te (mtr s1) (mtr s2) = mtr (breaks ROps ts te s1 s2).
+  Proof.
+    unfold breaks.
+    rewrite (su_mirror_gen ts te
+               (filter (fun x => nltb ROps ts x && nltb ROps x te) (s1 ++ s2))
+               (filter (fun x => nltb ROps ts x && nltb ROps x te) (mtr s1 ++ mtr s2))).
+    - unfold mirror_train. cbn [map rev]. rewrite map_app, rev_app_distr. cbn [map rev app].
+      rewrite mir_te, mir_ts. reflexivity.
+    - intros x. rewrite !filter_In, !in_app_iff, !In_mirror. cbn [nltb ROps].
+      rewrite !andb_true_iff, !Rltb_true. unfold mir. intuition lra.
+  Qed.
+
+  Lemma eff_mirror s : eff ts te (mtr s) = mtr (eff ts te s).
+  Proof.
+    destruct s as [|a s].
+    - unfold mirror_train. cbn [eff map rev app]. rewrite mir_te, mir_ts. reflexivity.
+    - cbn [eff]. unfold mirror_train. cbn [map rev].
+      destruct (rev (map mr s) ++ [mr a]) eqn:E; [|reflexivity].
+      destruct (rev (map mr s)); discriminate.
+  Qed.
+
+  Lemma breaks_sorted s1 s2 : ts < te -> ssorted (breaks ROps ts te s1 s2).
+  Proof.
+    intros Hlt. unfold breaks.
+    set (X := sort_unique ROps (filter (fun x => nltb ROps ts x && nltb ROps x te) (s1 ++ s2))).
+    assert (HX : forall x, In x X -> ts < x < te).
+    { intros x Hx. unfold X in Hx. apply (proj1 (tr_su_In _ _)) in Hx. apply filter_In in Hx as [_ Hq].
+      cbn [nltb ROps] in Hq. apply andb_true_iff in Hq as [H1 H2].
+      apply Rltb_true in H1, H2. lra. }
+    apply ssorted_cons.
+    - apply ssorted_snoc; [apply tr_su_sorted|].
+      rewrite Forall_forall. intros x Hx. apply HX in Hx. lra.
+    - apply Forall_app. split.
+      + rewrite Forall_forall. intros x Hx. apply HX in Hx. lra.
+      + constructor; [exact Hlt | constructor].
+  Qed.
+
+  Lemma eff_in_breaks s1 s2 s x : valid ts te s -> (forall y, In y s -> In y (s1 ++ s2)) ->
+    In x (eff ts te s) -> In x (breaks ROps ts te s1 s2).
+  Proof.
+    intros (Hlt & _ & Fb) Hsub Hx. unfold breaks.
+    assert (E : In x [ts; te] \/ In x s).
+    { destruct s; [left; exact Hx | right; exact Hx]. }
+    destruct E as [[<-|[<-|[]]]|Hs].
+    - left; reflexivity.
+    - right. apply in_or_app. right. left; reflexivity.
+    - rewrite Forall_forall in Fb. pose proof (Fb _ Hs) as Hb.
+      destruct (Req_dec x ts) as [->|N1]; [left; reflexivity|].
+      destruct (Req_dec x te) as [->|N2]; [right; apply in_or_app; right; left; reflexivity|].
+      right. apply in_or_app. left. apply tr_su_In. apply filter_In. split; [apply Hsub, Hs|].
+      cbn [nltb ROps]. apply andb_true_iff. rewrite !Rltb_true. lra.
+  Qed.
+
+  Lemma eff_sorted s : valid ts te s -> ssorted (eff ts te s).
+  Proof.
+    intros (Hlt & S & _). destruct s as [|a s]; [|exact S].
+    cbn [eff]. apply ssorted_cons; [apply ssorted_cons; [apply ssorted_nil | constructor]|].
+    constructor; [exact Hlt | constructor].
+  Qed.
+
+  Theorem isi_spec_mirror : forall s1 s2 m, valid ts te s1 -> valid ts te s2 ->
+    isi_spec ROps (mirror_train ts te s1) (mirror_train ts te s2) ts te m
+    = (rev (map (mir ts te) (fst (isi_spec ROps s1 s2 ts te m))),
+       rev (snd (isi_spec ROps s1 s2 ts te m))).
+  Proof.
+    intros s1 s2 m V1 V2. unfold isi_spec. cbv zeta. cbn [fst snd].
+    rewrite breaks_mirror, !eff_mirror. f_equal.
+    rewrite pieces_mirror, map_rev, map_map. f_equal.
+    apply map_ext_in. intros [a b] Hp. cbn [fst snd].
+    pose proof (breaks_sorted s1 s2 (proj1 V1)) as SB.
+    destruct (pieces_sorted_gap _ a b SB Hp) as [Hab Hgap].
+    assert (Hmid : a < mid ROps (a, b) < b).
+    { unfold mid. rewrite R_n2. cbn [fst snd nadd ndiv ROps]. lra. }
+    rewrite mid_mirror.
+    rewrite (isi_len_at_mirror_gen (eff ts te s1) (mid ROps (a, b)) (eff_sorted s1 V1)).
+    2:{ intros Hi. apply (eff_in_breaks s1 s2 s1) in Hi; [|exact V1|intros y Hy; apply in_or_app; left; exact Hy].
+        destruct (Hgap _ Hi); lra. }
+    rewrite (isi_len_at_mirror_gen (eff ts te s2) (mid ROps (a, b)) (eff_sorted s2 V2)).
+    2:{ intros Hi. apply (eff_in_breaks s1 s2 s2) in Hi; [|exact V2|intros y Hy; apply in_or_app; right; exact Hy].
+        destruct (Hgap _ Hi); lra. }
+    reflexivity.
+  Qed.
+
+End Mirror3.
+
+Print Assumptions sync_profile_shift.
+Print Assumptions sync_profile_scale.
+Print Assumptions sync_spec_mirror.
+Print Assumptions order_spec_mirror.
+Print Assumptions dir_spec_mirror.
+Print Assumptions single_spec_mirror.
+Print Assumptions isi_spec_mirror.
